@@ -157,8 +157,13 @@ static void gen_rc(opcase_t *c, rng_t *r, int maxdim) {
     if (v != RC_P_RIGHT_TRANS_TRI && v != RC_P_RELATIONS && rng_chance(r, 1, 4)) len = rng_int(r, 1, dim); /* shorter than the dimension */
     c->pv[0] = malloc(sizeof(int) * (len + 1));
     c->pvlen[0] = len;
-    /* LAPACK swap form as the library documents it: i <= P[i] < length */
-    gen_perm(r, c->pv[0], len, len, kind > 3 ? 2 : kind);
+    /* LAPACK swap form: i <= P[i].  For the left (row) application a pivot vector shorter than the number of rows may name
+     * any row below i (xGETRF's ipiv on a tall matrix does) and the effect is just the row swaps; for the right application the
+     * library builds an explicit permutation of `length` columns, so targets stay below the length there */
+    if ((v == RC_P_LEFT || v == RC_P_LEFT_TRANS) && len < dim && rng_chance(r, 2, 3))
+      gen_perm(r, c->pv[0], len, dim, kind > 3 ? 2 : kind);
+    else
+      gen_perm(r, c->pv[0], len, len, kind > 3 ? 2 : kind);
     c->ip[0] = 0;
     c->ip[1] = 0;
     if (v == RC_P_RIGHT_CAPPED || v == RC_P_RIGHT_TRANS_CAPPED) {
